@@ -25,6 +25,10 @@ fn process_from(p: &Value) -> libcnb_data::launch::Process {
         b.args(strs(&p["args"]));
     }
     if let Some(d) = p.get("default").and_then(Value::as_bool) {
+        if d {
+            // (the same for the process builder: an earlier build() changes nothing)
+            let _snapshot = b.build();
+        }
         b.default(d);
     }
     if let Some(h) = p.get("wd_hex").and_then(Value::as_str) {
@@ -74,7 +78,11 @@ fn handle_inner(req: &Value) -> Value {
     match jstr(req, "op") {
         "launch" => {
             let mut b = LaunchBuilder::new();
-            for call in jarr(req, "calls") {
+            for (n, call) in jarr(req, "calls").iter().enumerate() {
+                // a builder can be asked for its result more than once ("build_midway"): what it builds later still holds everything
+                if jbool(req, "build_midway") && n % 2 == 1 {
+                    let _snapshot = b.build();
+                }
                 let c = call.as_array().unwrap();
                 match c[0].as_str().unwrap() {
                     "process" => {
